@@ -665,6 +665,9 @@ def run():
     idxs = [0, 1, 2, 3, 5, 11, 6] if ck.quick else list(range(ncfg))     # quick: incl. the integer-pool and cluster_every=2 configurations
     tasks = [("tvf.checks.c08:scenario", dict(cfg=make_cfg(i, ck.subseed("cfg", i)), n_resume=ck.pick(2, 6), seed2=ck.subseed("res", i)), None)
              for i in idxs]
+    # particle coordinates in another precision than double (the prior transform's dtype is part of the particle state a checkpoint restores)
+    for j, xd in enumerate(ck.pick(["longdouble", "float32"], ["longdouble", "float32", "longdouble", "float32"])):
+        tasks.append(("tvf.checks.c08:scenario", dict(cfg=dict(make_cfg([0, 2, 4, 1][j], ck.subseed("xd", j)), xdtype=xd), n_resume=2, seed2=ck.subseed("xdr", j)), None))
     if not ck.quick:
         tasks += [("tvf.checks.c08:scenario", dict(cfg=make_cfg(i, ck.subseed("cfg2", i)), n_resume=4, seed2=ck.subseed("res2", i), second_gen=True), None)
                   for i in range(ncfg)]
@@ -677,6 +680,8 @@ def run():
             ck.violation("scenario-crashed", f"{cfg}: {st} {str(val)[-500:]}", dict(cfg=cfg))
             continue
         ck.case(dict(restore_resume=cfg), nontrivial=val["nontrivial_resume"] > 0)
+        if cfg.get("xdtype"):
+            ck.event("restore / resume scenarios with particle coordinates in float32 or extended precision")
         ck.event("checkpoints written", val["saves"])
         ck.event("checkpoints restored into a fresh sampler and compared", val["restored"])
         ck.event("resumed runs completed", val["resumed"])
